@@ -37,6 +37,13 @@ class Operator(Expr):
         """Get UFL signature data."""
         return self._ufl_typecode_
 
+    def _ufl_expr_data_equals_(self, other):
+        """Compare the data of two operators of the same type, besides the operands.
+
+        Plain operators are defined by their type and operands only.
+        """
+        return True
+
     def _ufl_compute_hash_(self):
         """Compute a hash code for this expression. Used by sets and dicts."""
         return hash((self._ufl_typecode_, *map(hash, self.ufl_operands)))
